@@ -9,7 +9,7 @@ from vlib.harness import CheckBase, Verdict, VERIF
 
 FAULTS = ["flip-id", "flip-data", "flip-idmark", "flip-datamark", "flip-gap", "slip", "zero-run", "truncate",
           "kill-id-sync", "kill-data-sync", "kill-pair", "kill-pair", "deleted-damaged", "deleted-damaged",
-          "badcrc-damaged", "edge-all-tracks", "edge-all-tracks"]
+          "badcrc-damaged", "edge-all-tracks", "edge-all-tracks", "stray-cyl", "stray-cyl", "stray-head"]
 
 
 @st.composite
@@ -37,7 +37,8 @@ class C06(CheckBase):
     rule = ("(1) image level (Hypothesis): a valid 2-4 track HFE v1/v3 or HxC MFM image with known sector contents "
             "(every sector distinct) receives a drawn fault set of 1-5 faults: bit flips inside a chosen sector's ID "
             "field / data field / address marks / gap, 1-7-cell slips (insert or delete), zeroed runs, wiped sync "
-            "runs, truncation of a track; then dump-sector is run for EVERY (side, track, sector): it must fail or "
+            "runs, truncation of a track, records with valid CRCs whose ID names another cylinder or the other head; "
+            "then dump-sector is run for EVERY (side, track, sector): it must fail or "
             "print exactly the bytes recorded under that address.  (2) decoder level (libFuzzer target fuzz_track, "
             "bit-granular custom mutator) with a brute-force reference that finds every CRC-valid ID and data field "
             "at every bit offset: each returned sector must have a CRC-valid ID field with that address and size, "
@@ -102,6 +103,15 @@ class C06(CheckBase):
                         quirks[f["sector"]] = {"data": bytes(bad)}
                         if f["kind"] == "deleted-damaged":
                             quirks[f["sector"]]["mark"] = 0xF8
+                    if f["kind"] in ("stray-cyl", "stray-head") and f["track"] == t and min(f["side"], nsides - 1) == sd:
+                        # a record with VALID CRCs whose ID names another cylinder / the other head (copy protection,
+                        # or a drive that wrote while mis-stepped): a read of the address it names must still return
+                        # what is recorded on THAT track, and a read of this slot must fail
+                        sec = spt - 1 if f["n"] % 2 else f["sector"]
+                        if f["kind"] == "stray-cyl":
+                            quirks.setdefault(sec, {})["cyl"] = (t + 1 + f["off"] % max(1, tracks - 1)) % tracks
+                        else:
+                            quirks.setdefault(sec, {})["head"] = 1 - sd
                 per.append(list(enc_fn(t, sd, secs, order=order, track_bytes=tb, fieldmap=fm, quirks=quirks)))
                 pm.append({f["sector"]: f for f in fm})
             cells.append(per)
@@ -179,7 +189,7 @@ class C06(CheckBase):
                 for q in range(max(0, ids - 16 * 6), min(len(c), ids + 64)):
                     c[q] = 1 if (q % 2 == 0) else 0
                 hit_field = True
-            elif k in ("deleted-damaged", "badcrc-damaged"):
+            elif k in ("deleted-damaged", "badcrc-damaged", "stray-cyl", "stray-head"):
                 hit_field = True          # applied when the track was encoded
             elif k == "kill-pair":
                 # the data field of this sector AND the ID field of the physically next sector vanish
